@@ -14,7 +14,11 @@ from nix_manipulator.expressions.expression import NixExpression, TypedExpressio
 from nix_manipulator.expressions.inherit import Inherit
 from nix_manipulator.expressions.layout import empty_line, linebreak
 from nix_manipulator.expressions.scope import ScopeLayer, ScopeState
-from nix_manipulator.expressions.set import _collect_attrpath_order, _render_bindings
+from nix_manipulator.expressions.set import (
+    _collect_attrpath_order,
+    _render_bindings,
+    _select_render_values,
+)
 from nix_manipulator.expressions.trivia import (
     append_gap_between_offsets,
     collect_comment_trivia_between,
@@ -232,9 +236,7 @@ class LetExpression(TypedExpression):
                 + f"{after_str}"
             )
 
-        render_values = (
-            self.attrpath_order if self.attrpath_order else self.local_variables
-        )
+        render_values = _select_render_values(self.local_variables, self.attrpath_order)
         bindings_str = "\n".join(
             _render_bindings(render_values, indent=indented, inline=False)
         )
